@@ -233,7 +233,7 @@ func RunCase(spec CaseSpec) (res CaseResult) {
 
 func deathIn(phase string, modules []string) bool {
 	for _, m := range modules {
-		if strings.HasSuffix(phase, "/"+m) {
+		if phase == m || strings.HasSuffix(phase, "/"+m) {
 			return true
 		}
 	}
